@@ -105,6 +105,17 @@ def as_iterable(kind, items):
     raise ValueError(kind)
 
 
+def limit_of(mi, default=1_000_000):
+    """number of iterations a (possibly float) max_iter allows: the loops test `iterations < max_iter`"""
+    import math
+
+    if mi is None:
+        return default
+    if isinstance(mi, float):
+        return 10 ** 12 if mi == INF else math.ceil(mi)
+    return mi
+
+
 def canon(x):
     if isinstance(x, bool) or x is None:
         return x
@@ -190,7 +201,7 @@ def judge_search(case):
     adj = [(i, list(js)) for i, js in enumerate(case["adj"])]
     g = case["goal"]
     goal = ("none",) if g[0] == "none" else ("val", g[1]) if g[0] == "val" else ("val", n + 5) if g[0] == "absent" else ("pred", list(g[1]))
-    mi = 1_000_000 if case["max_iter"] is None else case["max_iter"]
+    mi = limit_of(case["max_iter"])
     if out[0] in ("Found", "Visited") and any(x < 0 for x in out[2]):
         return out, f"{case['fn']}: result contains an object that is not a node label: {out}"
     bad = A.oracle_search(case["fn"], adj, case["start"], goal, mi, out[:4])
@@ -315,8 +326,8 @@ def call_wsearch(case):
         dg = dists_to(n, [[(j, w) for j, w in es] for es in adj], goals)
         num, den = case.get("hc", [0, 1])
         big = sum(abs(w) for es in adj for _, w in es) + 1
-        hv = [big if d is None else (d * num) / den for d in dg]
-        hv = [float(x) if case.get("hfloat") else (int(x) if x == int(x) else float(x)) for x in hv]
+        hv = [(INF if case.get("hinf") else big) if d is None else (d * num) / den for d in dg]
+        hv = [x if x == INF else float(x) if case.get("hfloat") else (int(x) if x == int(x) else float(x)) for x in hv]
 
         def h(s):
             i = index.of(s)
@@ -356,7 +367,7 @@ def judge_wsearch(case):
     gd = [d[t] for t in goals if d[t] is not None]
     best = min(gd) if gd else None
     nreach = sum(x is not None for x in d)
-    mi = 1_000_000 if case.get("max_iter") is None else case["max_iter"]
+    mi = limit_of(case.get("max_iter"))
     mc = case.get("max_cost")
     exact = case.get("exact", True)
     w8 = case.get("weight")
@@ -554,7 +565,11 @@ def eqnum(got, want, exact):
         return got is None and want is None
     if isinstance(got, str):
         return False
-    return Fraction(got) == Fraction(want) if exact else close(got, want)
+    if exact is True:
+        return Fraction(got) == Fraction(want)
+    if exact is False:
+        return close(got, want)
+    return abs(Fraction(got) - Fraction(want)) <= Fraction(1, 10 ** 9) * max(1, abs(Fraction(want)), Fraction(exact))  # exact = magnitude scale
 
 
 def judge_edges(case):
@@ -612,7 +627,7 @@ def judge_edges(case):
         return out, f"{tag}: target {t} reachable at distance {float(d)!r} but result is {out}"
     if not eqnum(out[2], d, exact):
         return out, f"{tag}: objective {out[2]!r}, exact distance {d!r}"
-    bad = orc.path_ok(s, t, out[1], Fraction(out[2])) if exact else (None if out[1] and out[1][0] == s and out[1][-1] == t and all((a, b) in orc.ws for a, b in zip(out[1], out[1][1:])) else f"path {out[1]} is not a path {s}->{t}")
+    bad = orc.path_ok(s, t, out[1], Fraction(out[2])) if exact is True else (None if out[1] and out[1][0] == s and out[1][-1] == t and all((a, b) in orc.ws for a, b in zip(out[1], out[1][1:])) else f"path {out[1]} is not a path {s}->{t}")
     return out, (f"{tag}: {bad}" if bad else None)
 
 
@@ -772,7 +787,7 @@ def judge_grid(case):
     hname = case.get("heuristic", "auto")
     dirs = case.get("directions", 4)
     admissible = min(costs + [1]) >= 1 and not (dirs == 8 and hname == "manhattan")
-    mi = 1_000_000 if case.get("max_iter") is None else case["max_iter"]
+    mi = limit_of(case.get("max_iter"))
     tag = f"astar_grid(directions={dirs}, heuristic={hname}, weight={w8}, max_iter={case.get('max_iter')})"
     if out[0] == "Found":
         path, obj = [tuple(p) for p in out[2]], out[3]
@@ -1407,7 +1422,7 @@ def event_search(rng, budget, per_event):
 
 # ================================================================================================ driver
 JUDGES = {"search": judge_search, "wsearch": judge_wsearch, "edges": judge_edges, "grid": judge_grid, "big": judge_big,
-          "alias": judge_alias}
+          "alias": judge_alias, "work": lambda c: judge_work(c), "edit": lambda c: judge_edit(c), "xfloat": lambda c: judge_x(c)}
 
 
 def judge(case):
@@ -1484,6 +1499,9 @@ def run_shapes(ctx):
     cases += sweep_cases(rng, 4 if not thorough else 20) + grid_sweep_cases(rng, 4 if not thorough else 20)
     cases += [gen_alias_case(rng) for _ in range(2 * k)]
     cases += big_cases(thorough)
+    cases += work_cases(rng, thorough)
+    cases += [gen_edit_case(rng) for _ in range(2 * k)]
+    cases += [gen_x_case(rng) for _ in range(3 * k)] + x_option_cases(rng, 3 if not thorough else 15)
     found = event_search(rng, ctx.budget(3000, 30000), 4 if not thorough else 12)
     for ev, cs in sorted(found.items()):
         ctx.count("shape_event", ev, len(cs))
@@ -1493,9 +1511,19 @@ def run_shapes(ctx):
     coq = {"bfs": [], "dfs": [], "bf": [], "fw": []}
     meta = {"bfs": [], "dfs": [], "bf": [], "fw": []}
     nviol = 0
+    work_max = {}
     for case in cases:
         out, bad = judge(case)
-        ctx.evaluations += 1
+        if case["kind"] == "work" and isinstance(out, tuple) and len(out) == 3:
+            for loop, cnt in out[2].items():
+                work_max[loop] = max(work_max.get(loop, 0), cnt)
+                for thr in (2 ** 7, 2 ** 10, 2 ** 11, 2 ** 12, 10 ** 4, 10 ** 5, 2 ** 20):
+                    if cnt > thr:
+                        ctx.count("work_volume_crossed", f"{loop} > {thr}")
+        if is_observation(case):
+            ctx.count("observation_only", (case.get("sub") or "inf option / inf heuristic") + ": " + ("as property" if not bad else "hang" if "hang" in str(out[:1]) else "deviates / raises"))
+            ctx.evaluations += 1
+            continue
         fam = case.get("family", "S" if case["kind"] == "big" else "?")
         ctx.count("shape_family", fam)
         ctx.count("shape_fn", case.get("fn", "astar_grid" if case["kind"] == "grid" else "?"))
@@ -1508,7 +1536,7 @@ def run_shapes(ctx):
             continue
         ctx.nontriv(("shape", json.dumps(case, sort_keys=True, default=str)[:400]))
         ctx.sample({"shape_case": case, "impl": _jsonable(out)}, 6)
-        if case["kind"] == "search" and case["iter"] != "set" and len(coq[case["fn"]]) < 1500:
+        if case["kind"] == "search" and case["iter"] != "set" and len(coq[case["fn"]]) < 1500 and (case["max_iter"] is None or isinstance(case["max_iter"], int)):
             coq[case["fn"]].append(coq_search(case, out))
             meta[case["fn"]].append(case)
         elif case["kind"] == "edges":
@@ -1546,6 +1574,20 @@ def run_shapes(ctx):
         "bellman_ford(0, [(0,1,2**60),(1,2,-2**60),(2,0,-1)], 3) answers OPTIMAL with dist[0] = -1 instead of UNBOUNDED (floyd_warshall, which keeps ints, "
         "answers UNBOUNDED); magnitudes beyond 2^53 are therefore only generated with non-negative weights and judged with relative tolerance 1e-9",
     ]
+    ctx.extra["work_volume_max"] = work_max
+    ctx.notes += [
+        "round 3: W work-volume instances (parallel-edge fans listed heaviest first, dense quadratic DAGs, layered graphs, weighted grids, reversed "
+        "chains, rings, long chains, combs) maximise heap entries / stale pops / settled nodes / relaxation rounds / inner steps / frontier length; "
+        "the counts reached are in coverage.work_volume_max; A2 in-place edits of the caller's edge list / adjacency behind the same neighbours "
+        "function / grid, costs, blocked between calls, compared with a fresh call on a deep copy, incl. sibling functions and both back-ends; "
+        "X int vs integral float in every numeric argument, -0.0, inf/NaN weights (must raise or equal the answer without those edges), costs near "
+        "1e308 (non-negative; unrepresentable distances must come out as inf), exact integers beyond 2^53 that cancel (status exact, distances within "
+        "1e-9 of the largest input magnitude)",
+        "observation-only (outside the property by the coordinator's POLICY_X; run under a 0.3 s guard, counted in histogram observation_only, never a "
+        "violation): NaN / inf as weight, option or heuristic value; finite floats whose sums overflow (|v| >= 1e300); integer weights whose exact sums exceed "
+        "2^53 mixed with negative weights for the float-valued bellman_ford / floyd_warshall (cancellation is lost: missed negative cycles, and "
+        "_reconstruct_indexed can follow a parent cycle forever)",
+    ]
     ctx.extra["shape_wall_s"] = round(time.time() - t0, 1)
 
 
@@ -1564,3 +1606,663 @@ def replay(obj):
     print("implementation:", repr(out)[:400])
     print("verdict:", bad or "ok")
     return 1 if bad else 0
+
+
+# ================================================================================================ work volume (class W, round 3)
+# {"kind": "work", "shape": name, "fn": name, ...parameters}: instances that maximise the iteration count of one internal
+# loop (heap entries incl. stale ones, pops, relaxation rounds, inner steps, queue/stack length, path reconstruction) at
+# moderate input size, judged by construction or by a naive exact reference.  `work` reports the counts reached.
+def build_work_graph(case):
+    """adjacency dict {u: [(v, w), ...]} for the weighted work shapes"""
+    shape = case["shape"]
+    if shape == "fan_ring":  # source -> K successors through P parallel edges each, then a ring of light edges
+        K, P, stride, order = case["K"], case["P"], case.get("stride", 7919), case.get("order", "desc")
+        adj = {0: []}
+        for i in range(1, K + 1):
+            base = 10 + (i * stride) % case.get("mod", 1000)
+            ws = [base + j for j in range(P)]
+            if order == "desc":
+                ws.reverse()
+            elif order == "zigzag":
+                ws = ws[::2][::-1] + ws[1::2][::-1]
+            adj[0] += [(i, w) for w in ws]
+        if case.get("interleave"):
+            adj[0] = [adj[0][(j * K + i) % (K * P)] if False else adj[0][i * P + j] for j in range(P) for i in range(K)]
+        for i in range(1, K + 1):
+            adj[i] = [(i % K + 1, case.get("ring_w", 1))]
+        return adj
+    if shape == "dense_quadratic":  # complete DAG, w(i,j) = (j-i)^2 + c: every node is improved by each predecessor in turn
+        n, c = case["n"], case.get("c", 0)
+        return {i: [(j, (j - i) ** 2 + c * (j - i - 1)) for j in range(n - 1, i, -1)] for i in range(n)}
+    if shape == "layered_desc":  # L layers of width B, complete bipartite between layers, weights descending in listing order
+        L, B = case["L"], case["B"]
+        adj = {}
+        for layer in range(L):
+            for a in range(B):
+                u = 1 + layer * B + a
+                adj[u] = [] if layer == L - 1 else [(1 + (layer + 1) * B + b, 1 + ((a * 31 + b * 17) % 23)) for b in range(B)]
+        adj[0] = [(1 + a, 5 + a) for a in range(B)]
+        return adj
+    raise ValueError(shape)
+
+
+def naive_dists(adj, s):
+    """label-correcting reference on the minimum parallel edges (exact ints)"""
+    best = {}
+    for u, es in adj.items():
+        for v, w in es:
+            if (u, v) not in best or w < best[(u, v)]:
+                best[(u, v)] = w
+    out = {}
+    for (u, v), w in best.items():
+        out.setdefault(u, []).append((v, w))
+    dist = {s: 0}
+    todo = [s]
+    while todo:
+        nxt = []
+        for u in todo:
+            for v, w in out.get(u, []):
+                if dist[u] + w < dist.get(v, INF):
+                    dist[v] = dist[u] + w
+                    nxt.append(v)
+        todo = nxt
+    return dist
+
+
+def heap_profile(adj, s):
+    """instrumented textbook lazy-deletion Dijkstra: how much work the instance causes"""
+    import heapq
+
+    dist = {s: 0}
+    closed = set()
+    heap = [(0, 0, s)]
+    cnt = 1
+    prof = {"pushes": 1, "max_heap": 1, "stale_pops": 0, "pops": 0, "max_improvements": 0}
+    imp = {}
+    while heap:
+        prof["max_heap"] = max(prof["max_heap"], len(heap))
+        d, _, u = heapq.heappop(heap)
+        if u in closed:
+            prof["stale_pops"] += 1
+            continue
+        closed.add(u)
+        prof["pops"] += 1
+        for v, w in adj.get(u, []):
+            if v not in closed and d + w < dist.get(v, INF):
+                dist[v] = d + w
+                imp[v] = imp.get(v, 0) + 1
+                heapq.heappush(heap, (d + w, cnt, v))
+                cnt += 1
+                prof["pushes"] += 1
+    prof["max_improvements"] = max(imp.values()) if imp else 0
+    return prof
+
+
+def call_work(case):
+    from solvor.a_star import astar, astar_grid
+    from solvor.bellman_ford import bellman_ford
+    from solvor.bfs import bfs, dfs
+    from solvor.dijkstra import dijkstra, dijkstra_edges
+    from solvor.floyd_warshall import floyd_warshall
+
+    shape, fn = case["shape"], case["fn"]
+    work = {}
+    if shape in ("fan_ring", "dense_quadratic", "layered_desc"):
+        adj = build_work_graph(case)
+        n = max(adj) + 1
+        want = naive_dists(adj, 0)
+        prof = heap_profile(adj, 0)
+        work = {"heap_entries": prof["max_heap"], "heap_pushes": prof["pushes"], "stale_pops": prof["stale_pops"], "settled": prof["pops"],
+                "improvements_per_node": prof["max_improvements"]}
+        wsof = {}
+        for u, es in adj.items():
+            for v, w in es:
+                wsof.setdefault((u, v), set()).add(w)
+        targets = case.get("targets") or sorted(want)[1:]
+        if fn == "dijkstra_edges_all":
+            es = [(u, v, w) for u, ws in adj.items() for v, w in ws]
+            r = dijkstra_edges(n, es, 0, backend="python")
+            got = {k: canon(v) for k, v in r.solution.items()}
+            bad = [(t, got.get(t), want.get(t)) for t in range(n) if got.get(t) != want.get(t)]
+            return work, (f"dijkstra_edges (all distances): {len(bad)} of {n} distances wrong, e.g. node {bad[0][0]}: {bad[0][1]} instead of {bad[0][2]}" if bad else None)
+        es = [(u, v, w) for u, ws in adj.items() for v, w in ws] if fn == "dijkstra_edges" else None
+        to_goal = None
+        bads = []
+        for t in targets:
+            if fn == "dijkstra":
+                r = dijkstra(0, t, lambda u: adj.get(u, []))
+            elif fn == "dijkstra_pred":
+                r = dijkstra(0, lambda x, t=t: x == t, lambda u: (e for e in adj.get(u, [])))
+            elif fn == "dijkstra_edges":
+                r = dijkstra_edges(n, es, 0, target=t, backend="python")
+            else:  # astar with h = 0 or a consistent lower bound (half the exact distance to the target, rounded down)
+                if case.get("h") == "half":
+                    radj = {}
+                    for u, ws in adj.items():
+                        for v, w in ws:
+                            radj.setdefault(v, []).append((u, w))
+                    dt = naive_dists(radj, t)
+                    hf = lambda x, dt=dt: dt.get(x, INF) // 2 if x in dt else INF  # noqa: E731
+                else:
+                    hf = lambda x: 0  # noqa: E731
+                r = astar(0, t, lambda u: adj.get(u, []), hf)
+            st, path, obj = status_name(r), r.solution, canon(r.objective)
+            if st != "OPTIMAL" or path is None:
+                bads.append(f"target {t}: status {st}, true distance {want.get(t)}")
+                continue
+            sums = {0}
+            okp = path[0] == 0 and path[-1] == t
+            for a, b in zip(path, path[1:]):
+                if (a, b) not in wsof:
+                    okp = False
+                    break
+                sums = {x + w for x in sums for w in wsof[(a, b)]}
+            if not okp:
+                bads.append(f"target {t}: returned path is not a path of the graph")
+            elif obj != want[t]:
+                bads.append(f"target {t}: reported distance {obj}, true shortest distance {want[t]}")
+            elif obj not in sums:
+                bads.append(f"target {t}: objective {obj} is not the weight of the returned path")
+        return work, (f"{fn} on {shape}: wrong on {len(bads)} of {len(targets)} targets, e.g. {bads[0]}" if bads else None)
+    if shape == "grid_costs":
+        R, C = case["R"], case["C"]
+        grid = [[(0 if (r * 7 + c * 3) % 11 else 2) if (r * 5 + c) % 13 else 3 for c in range(C)] for r in range(R)]
+        gcase = {"kind": "grid", "grid": grid, "start": [0, 0], "goal": [R - 1, C - 1], "directions": case.get("directions", 8),
+                 "heuristic": case.get("heuristic", "euclidean"), "blocked": 1, "costs": {"2": 2, "3": 4}}
+        out, bad = judge_grid(gcase)
+        d, _ = grid_ref(gcase)
+        return {"grid_cells_reachable": len(d)}, bad
+    if shape == "bf_rev_chain":  # chain listed in reverse path order: every one of the n-1 rounds updates exactly one more node
+        n = case["n"]
+        w = lambda i: (i % 5) - 1  # noqa: E731  (-1 .. 3: negative edges, no cycle at all)
+        es = [(i, i + 1, w(i)) for i in range(n - 1)]
+        es.reverse()
+        acc, want = 0, []
+        for i in range(n):
+            want.append(acc)
+            acc += w(i)
+        r = bellman_ford(0, es, n, target=n - 1, backend="python")
+        ok = (status_name(r), r.solution, canon(r.objective)) == ("OPTIMAL", list(range(n)), want[-1])
+        if n <= 2000:
+            r2 = bellman_ford(0, es, n, backend="python")
+            ok2 = status_name(r2) == "OPTIMAL" and [canon(r2.solution.get(i)) for i in range(n)] == want
+        else:
+            ok2 = True
+        es2 = es + [(n - 1, n - 2, -w(n - 2) - 1)]  # closes a cycle of weight -1 at the far end
+        r3 = bellman_ford(0, es2, n, backend="python")
+        ok3 = status_name(r3) == "UNBOUNDED"
+        work = {"bf_rounds": n - 1, "bf_inner_steps": (n - 1) * (n - 1), "path_reconstruction_steps": n - 1}
+        return work, None if ok and ok2 and ok3 else f"bellman_ford on a reversed chain of {n} nodes: path/objective ok={ok}, distance vector ok={ok2}, far negative cycle reported={ok3}"
+    if shape == "fw_ring":
+        n = case["n"]
+        es = [(i, (i + 1) % n, 1 + (i % 2)) for i in range(n)]
+        pre = [0]
+        for i in range(2 * n):
+            pre.append(pre[-1] + 1 + ((i % n) % 2))
+        r = floyd_warshall(n, es, backend="python")
+        bad = None
+        if status_name(r) != "OPTIMAL":
+            bad = f"status {status_name(r)}"
+        else:
+            for i in range(n):
+                for j in range(n):
+                    want = pre[j if j >= i else j + n] - pre[i]
+                    if canon(r.solution[i][j]) != want:
+                        bad = f"dist[{i}][{j}] = {r.solution[i][j]!r}, by construction {want}"
+                        break
+                if bad:
+                    break
+        return {"fw_inner_steps": n ** 3, "fw_pivots": n}, (f"floyd_warshall on a ring of {n} nodes: {bad}" if bad else None)
+    if shape in ("long_chain", "comb"):
+        n = case["n"]
+        f = bfs if fn.startswith("bfs") else dfs
+        kw = {"max_iter": case["max_iter"]} if case.get("max_iter") else {}
+        if shape == "long_chain":
+            r = f(0, n - 1, lambda s: (s + 1,) if s + 1 < n else (), **kw)
+            ok = (r.solution is not None and len(r.solution) == n and r.solution[:2] == [0, 1] and r.solution[-1] == n - 1 and r.objective == n - 1
+                  and all(r.solution[i] == i for i in range(0, n, max(1, n // 50))))
+            return {"search_iterations": n, "path_reconstruction_steps": n - 1}, None if ok else f"{fn} on a chain of {n} nodes: status {status_name(r)}, objective {r.objective}"
+        # comb: spine 0..n-1, every spine node also has `teeth` leaf neighbours listed BEFORE the next spine node
+        teeth = case["teeth"]
+        leaf = lambda s, k: n + s * teeth + k  # noqa: E731
+        nb = lambda s: ([leaf(s, k) for k in range(teeth)] + ([s + 1] if s + 1 < n else [])) if s < n else []  # noqa: E731
+        r = f(0, n - 1, nb, **kw)
+        ok = r.solution == list(range(n)) and r.objective == n - 1
+        return {"frontier_length": n * teeth if fn == "bfs" else teeth * n, "search_iterations": n * (teeth + 1) if fn == "bfs" else n},             None if ok else f"{fn} on a comb ({n} spine nodes, {teeth} teeth each): status {status_name(r)}, objective {r.objective}"
+    raise ValueError(case)
+
+
+def judge_work(case):
+    t0 = time.time()
+    res = guarded(call_work, case, timeout=60)
+    dt = round(time.time() - t0, 2)
+    if res[0] != "ok":
+        return (res[:2], dt, {}), f"{case['fn']} on {case['shape']}: implementation {res[:2]} {str(res[2:])[:120]}"
+    work, bad = res[1]
+    return ("ok" if not bad else "bad", dt, work), bad
+
+
+def work_cases(rng, thorough):
+    out = []
+    K0 = rng.choice([300, 420, 530])
+    fans = [(K0, rng.choice([12, 15, 17]), "desc"), (rng.choice([900, 1100]), 6, "desc"), (rng.choice([200, 260]), 24, "zigzag"), (64, 5, "desc")]
+    fans += [(2600, 5, "desc"), (4300, 2, "desc"), (10050, 2, "desc")] if not thorough else [(2600, 5, "desc"), (10050, 2, "desc"), (5000, 21, "desc"), (20000, 6, "zigzag"), (110000, 2, "desc")]
+    for K, P, order in fans:
+        base = {"kind": "work", "shape": "fan_ring", "K": K, "P": P, "order": order, "stride": rng.choice([7919, 104729, 389]), "mod": rng.choice([1000, 97, 5000]) if K < 2000 else 97,
+                "ring_w": rng.choice([1, 1, 2]), "family": "W"}
+        tg = sorted(set([1, 2, K // 2, K - 1, K] + [rng.randint(1, K) for _ in range(10 if K <= 1200 else 3)]))
+        for fn in ("dijkstra", "astar", "dijkstra_edges"):
+            out.append(dict(base, fn=fn, targets=tg if fn == "dijkstra" else tg[:6]))
+        out.append(dict(base, fn="dijkstra_pred", targets=tg[:4]))
+        out.append(dict(base, fn="dijkstra_edges_all"))
+        out.append(dict(base, fn="dijkstra", interleave=True, targets=tg[:6]))
+    for n in [40, 100, 150] + ([460] if thorough else []):
+        base = {"kind": "work", "shape": "dense_quadratic", "n": n, "c": rng.choice([0, 1]), "family": "W"}
+        tg = sorted(set([1, n // 2, n - 2, n - 1] + [rng.randrange(1, n) for _ in range(4)]))
+        out += [dict(base, fn="dijkstra", targets=tg), dict(base, fn="astar", targets=tg[:4], h="half"), dict(base, fn="astar", targets=tg[:3]),
+                dict(base, fn="dijkstra_edges", targets=tg[:3]), dict(base, fn="dijkstra_edges_all")]
+    for L, B in [(6, 30), (4, 70)] + ([(5, 150)] if thorough else []):
+        base = {"kind": "work", "shape": "layered_desc", "L": L, "B": B, "family": "W"}
+        tg = [L * B, L * B - B + 1, (L - 1) * B + rng.randint(1, B)]
+        out += [dict(base, fn="dijkstra", targets=tg), dict(base, fn="astar", targets=tg, h="half"), dict(base, fn="dijkstra_edges_all")]
+    for R, C in [(70, 70), (110, 110)] + ([(330, 330)] if thorough else []):
+        out += [{"kind": "work", "shape": "grid_costs", "fn": "astar_grid", "R": R, "C": C, "directions": d, "heuristic": h, "family": "W"}
+                for d, h in ((4, "manhattan"), (8, "euclidean"))]
+    for n in [130, 1030, 4100] + ([10050] if thorough else []):
+        out.append({"kind": "work", "shape": "bf_rev_chain", "fn": "bellman_ford", "n": n, "family": "W"})
+    for n in [17, 129] + ([257] if thorough else []):
+        out.append({"kind": "work", "shape": "fw_ring", "fn": "floyd_warshall", "n": n, "family": "W"})
+    for n in [2 ** 12 + 2, 10 ** 4 + 2, 10 ** 5 + 2] + ([2 ** 20 + 2] if thorough else []):
+        for fn in ("bfs", "dfs"):
+            out.append({"kind": "work", "shape": "long_chain", "fn": fn, "n": n, "max_iter": 2 ** 21 if n > 10 ** 6 else None, "family": "W"})
+    for n, teeth in [(70, 70), (110, 100)] + ([(1030, 1030)] if thorough else []):
+        for fn in ("bfs", "dfs"):
+            out.append({"kind": "work", "shape": "comb", "fn": fn, "n": n, "teeth": teeth, "max_iter": 2 ** 21 if n * teeth > 900000 else None, "family": "W"})
+    return out
+
+
+# ================================================================================================ in-place edits between calls (class A2, round 3)
+# {"kind": "edit", "fn": name, "n": n, "edges": [[u, v, w]], "edits": [[op, ...]], "start": s, "target": t}
+# The caller's object is used for a call, MUTATED IN PLACE, used again (and handed to the sibling functions of the module);
+# every answer must equal the answer of a fresh call on a deep copy of the object as it is at that moment.
+def apply_edit(edges, ed):
+    op = ed[0]
+    if op == "weight" and edges:
+        edges[ed[1] % len(edges)][2] = ed[2]
+    elif op == "append":
+        edges.append([ed[1], ed[2], ed[3]])
+    elif op == "pop" and edges:
+        edges.pop(ed[1] % len(edges))
+    elif op == "replace" and edges:
+        edges[ed[1] % len(edges)] = [ed[2], ed[3], ed[4]]
+    elif op == "reverse":
+        edges.reverse()
+
+
+def call_edit(case):
+    from solvor.a_star import astar, astar_grid
+    from solvor.bellman_ford import bellman_ford
+    from solvor.bfs import bfs, bfs_edges, dfs, dfs_edges
+    from solvor.dijkstra import dijkstra, dijkstra_edges
+    from solvor.floyd_warshall import floyd_warshall
+    from solvor.rust import rust_available
+
+    fn = case["fn"]
+    probs = []
+    n, s, t = case.get("n"), case.get("start"), case.get("target")
+    backends = ["python"] + (["rust"] if rust_available() else [])
+    if fn == "grid":
+        grid = [list(r) for r in case["grid"]]
+        costs = {2: 2, 3: 3}
+        blocked = {1}
+        kw = lambda g, c, b, d: dict(directions=d, costs=c, blocked=b)  # noqa: E731
+        steps = [None] + case["edits"]
+        for ed in steps:
+            if ed is not None:
+                if ed[0] == "cell":
+                    grid[ed[1] % len(grid)][ed[2] % len(grid[0])] = ed[3]
+                elif ed[0] == "cost":
+                    costs[ed[1]] = ed[2]
+                elif ed[0] == "block":
+                    blocked.symmetric_difference_update({ed[1]})
+            if grid[case["start"][0]][case["start"][1]] in blocked or grid[case["goal"][0]][case["goal"][1]] in blocked:
+                continue
+            for d in (4, 8):
+                got = _canon_result(astar_grid(grid, tuple(case["start"]), tuple(case["goal"]), **kw(grid, costs, blocked, d)))
+                g2, c2, b2 = copy.deepcopy((grid, costs, blocked))
+                want = _canon_result(astar_grid(g2, tuple(case["start"]), tuple(case["goal"]), **kw(g2, c2, b2, d)))
+                if got != want:
+                    probs.append(f"astar_grid(directions={d}) after the in-place edit {ed}: {got} but a fresh call on a copy gives {want}")
+        return probs
+    if fn in ("bfs", "dfs", "dijkstra", "astar"):
+        weighted = fn in ("dijkstra", "astar")
+        store = {i: [] for i in range(n)}
+        for u, v, w in case["edges"]:
+            store[u].append((v, abs(w)) if weighted else v)
+        nb = lambda x: store.get(x, [])  # noqa: E731  the SAME function object for every call
+        hz = lambda x: 0  # noqa: E731
+        f = {"bfs": bfs, "dfs": dfs, "dijkstra": dijkstra, "astar": astar}[fn]
+        sib = {"bfs": dfs, "dfs": bfs, "dijkstra": astar, "astar": dijkstra}[fn]
+
+        def run(g, fun, nbf):
+            return _canon_result(fun(s, g, nbf, hz) if fun is astar else fun(s, g, nbf))
+
+        for ed in [None] + case["edits"]:
+            if ed is not None:
+                if ed[0] == "append":
+                    store[ed[1] % n].append((ed[2] % n, abs(ed[3])) if weighted else ed[2] % n)
+                elif ed[0] == "pop" and store[ed[1] % n]:
+                    store[ed[1] % n].pop()
+                elif ed[0] == "weight" and weighted and store[ed[1] % n]:
+                    v, _ = store[ed[1] % n][0]
+                    store[ed[1] % n][0] = (v, abs(ed[2]))
+                elif ed[0] == "reverse":
+                    store[ed[1] % n].reverse()
+                elif ed[0] == "clear":
+                    store[ed[1] % n].clear()
+            for fun in (f, sib, f):
+                for goal in (t, (t + 1) % n):
+                    got = run(goal, fun, nb)
+                    fresh = copy.deepcopy(store)
+                    want = run(goal, fun, lambda x, fresh=fresh: fresh.get(x, []))
+                    if got != want:
+                        probs.append(f"{fun.__name__}(goal={goal}) after the in-place edit {ed} of the graph behind the same neighbours function: {got}, fresh call on a copy: {want}")
+        return probs
+    edges = [list(e) for e in case["edges"]]
+    if fn == "dijkstra_edges":
+        for e in edges:
+            e[2] = abs(e[2])
+
+    def calls(es, be):
+        pairs = [[u, v] for u, v, _ in es]
+        if fn == "bellman_ford":
+            return [("bellman_ford", lambda: bellman_ford(s, es, n, backend=be)), ("bellman_ford(target)", lambda: bellman_ford(s, es, n, target=t, backend=be))]
+        if fn == "floyd_warshall":
+            return [("floyd_warshall", lambda: floyd_warshall(n, es, backend=be)), ("floyd_warshall(directed=False)", lambda: floyd_warshall(n, es, directed=False, backend=be))]
+        if fn == "dijkstra_edges":
+            return [("dijkstra_edges", lambda: dijkstra_edges(n, es, s, backend=be)), ("dijkstra_edges(target)", lambda: dijkstra_edges(n, es, s, target=t, backend=be))]
+        return [("bfs_edges", lambda: bfs_edges(n, pairs, s, target=t, backend=be)), ("dfs_edges", lambda: dfs_edges(n, pairs, s, target=t, backend=be)),
+                ("bfs_edges(all)", lambda: bfs_edges(n, pairs, s, backend=be))]
+
+    def safe(th):
+        try:
+            return _canon_result(th())
+        except Exception as e:  # noqa: BLE001
+            return ("exc", type(e).__name__)
+
+    for ed in [None] + case["edits"]:
+        if ed is not None:
+            apply_edit(edges, ed)
+            if fn == "dijkstra_edges":
+                for e in edges:
+                    e[2] = abs(e[2])
+        for be in backends:
+            fresh = copy.deepcopy(edges)
+            for (name, th), (_, th2) in zip(calls(edges, be), calls(fresh, be)):
+                got, want = safe(th), safe(th2)
+                if got != want:
+                    probs.append(f"{name} (backend={be}) after the in-place edit {ed} of the caller's edge list: {got}, fresh call on a copy: {want}")
+    return probs
+
+
+def judge_edit(case):
+    from harness.props import C11 as A
+
+    res = guarded(call_edit, case, timeout=max(3, A._limit()))
+    if res[0] != "ok":
+        if res[0] == "hang":
+            A._seen_hang()
+        return res, f"{case['fn']} edit sequence: implementation {res}"
+    return ("ok", len(res[1])), (res[1][0] if res[1] else None)
+
+
+def gen_edit_case(rng):
+    from harness.props import C11 as A
+
+    fn = rng.choice(["bellman_ford", "floyd_warshall", "dijkstra_edges", "bfs_edges", "bfs", "dfs", "dijkstra", "astar", "grid"])
+    if fn == "grid":
+        g = gen_grid_case(rng, "A2")
+        eds = []
+        R, C = len(g["grid"]), len(g["grid"][0])
+        for _ in range(rng.randint(2, 5)):
+            r = rng.random()
+            eds.append(["cell", rng.randrange(R), rng.randrange(C), rng.choice([0, 1, 2, 3])] if r < 0.6 else ["cost", rng.choice([2, 3]), rng.choice([1, 2, 5])] if r < 0.85 else ["block", rng.choice([2, 3])])
+        return {"kind": "edit", "fn": "grid", "grid": g["grid"], "start": g["start"], "goal": g["goal"], "edits": eds, "family": "A2"}
+    n, edges, _ = A.gen_wgraph(rng)
+    eds = []
+    for _ in range(rng.randint(2, 5)):
+        r = rng.random()
+        if r < 0.3:
+            eds.append(["weight", rng.randrange(20), rng.randint(-3, 6)])
+        elif r < 0.6:
+            eds.append(["append", rng.randrange(n), rng.randrange(n), rng.randint(-2, 6)])
+        elif r < 0.75:
+            eds.append(["pop", rng.randrange(20)])
+        elif r < 0.9:
+            eds.append(["replace", rng.randrange(20), rng.randrange(n), rng.randrange(n), rng.randint(-2, 6)])
+        else:
+            eds.append(rng.choice([["reverse", rng.randrange(n)], ["clear", rng.randrange(n)]]))
+    return {"kind": "edit", "fn": fn, "n": n, "edges": [list(e) for e in edges], "edits": eds, "start": rng.randrange(n), "target": rng.randrange(n), "family": "A2"}
+
+
+# ================================================================================================ float extremes (class X, round 3)
+# {"kind": "xfloat", "sub": "intfloat"|"negzero"|"infnan"|"overflow"|"cancel"|"hinf", "fn": name, "n": n, "edges": [[u, v, w]],
+#  "start": s, "target": t|None, "directed": bool, ...}
+MAXF = Fraction(1.7976931348623157e308)
+
+
+def _num(x, mode):
+    """int <-> integral float"""
+    if isinstance(x, bool) or x is None:
+        return x
+    if mode == "float" and isinstance(x, int) and abs(x) < 2 ** 53:
+        return float(x)
+    if mode == "int" and isinstance(x, float) and x == int(x):
+        return int(x)
+    return x
+
+
+def bf_float_port(start, edges, n, target):
+    """the documented algorithm with float distances (what the code does today): used only to recognise the known
+    float-cancellation behaviour, never as an oracle"""
+    dist = [INF] * n
+    par = [-1] * n
+    dist[start] = 0.0
+    for _ in range(n - 1):
+        upd = False
+        for u, v, w in edges:
+            if dist[u] != INF and dist[u] + w < dist[v]:
+                dist[v] = dist[u] + w
+                par[v] = u
+                upd = True
+        if not upd:
+            break
+    for u, v, w in edges:
+        if dist[u] != INF and dist[u] + w < dist[v]:
+            return ("Unbounded", "-inf", None)
+    if target is None:
+        return ("Dists", [canon(x) for x in dist])
+    if dist[target] == INF:
+        return ("Infeasible", None, None)
+    x, steps = target, 0
+    while par[x] != -1:
+        x = par[x]
+        steps += 1
+        if steps > n:
+            return ("Hang",)
+    return ("Path", None, canon(dist[target]))
+
+
+def fw_float_port(n, edges, directed):
+    """the documented algorithm with the float 0.0 diagonal the code uses today (recognition of the known class only)"""
+    d = [[INF] * n for _ in range(n)]
+    for i in range(n):
+        d[i][i] = 0.0
+    for u, v, w in edges:
+        d[u][v] = min(d[u][v], w)
+        if not directed:
+            d[v][u] = min(d[v][u], w)
+    for k in range(n):
+        for i in range(n):
+            for j in range(n):
+                if d[i][k] + d[k][j] < d[i][j]:
+                    d[i][j] = d[i][k] + d[k][j]
+    if any(d[i][i] < 0 for i in range(n)):
+        return ("Unbounded",)
+    return ("Dist", [[canon(x) for x in row] for row in d])
+
+
+def call_x(case):
+    """returns (outcome, problem)"""
+    sub, fn = case["sub"], case["fn"]
+    n, s, t = case["n"], case["start"], case.get("target")
+    base = {"kind": "edges", "fn": fn, "n": n, "edges": case["edges"], "scale": ["none"], "container": "list", "start": s, "target": t,
+            "directed": case.get("directed", True), "exact": True}
+    if sub in ("intfloat", "negzero"):
+        a = call_edges(base)
+        if sub == "intfloat":
+            alt = dict(base, edges=[[u, v, _num(w, "float" if isinstance(w, int) else "int")] for u, v, w in case["edges"]])
+        else:
+            z = case.get("zero", -0.0)
+            alt = dict(base, edges=[[u, v, (z if w == 0 else w)] for u, v, w in case["edges"]])
+        b = call_edges(alt)
+        return (a[0], b[0]), None if a == b else f"{fn}: {'int vs integral-float weights' if sub == 'intfloat' else 'weights 0 vs ' + repr(case.get('zero', -0.0))} change the answer: {a} vs {b}"
+    if sub == "infnan":
+        special = [e for e in case["edges"] if isinstance(e[2], float) and (e[2] != e[2] or e[2] in (INF, -INF))]
+        plain = dict(base, edges=[e for e in case["edges"] if e not in special])
+        try:
+            a = call_edges(base)
+        except (ValueError, TypeError) as e:
+            return ("raised", type(e).__name__), None
+        b = call_edges(plain)
+        return (a[0], b[0]), None if a == b else f"{fn} with edges of weight {sorted({repr(e[2]) for e in special})}: answer {a} is neither an error nor the answer without those edges {b}"
+    if sub == "overflow":
+        out = call_edges(base)
+        es = [(u, v, Fraction(w)) for u, v, w in case["edges"]]
+        if fn == "floyd_warshall" and not case.get("directed", True):
+            es = [e for (u, v, w) in es for e in ((u, v, w), (v, u, w))]
+        from harness.props import C11 as A
+
+        orc = A.GraphOracle(n, es)
+
+        def okd(got, want):
+            if want is None or want > MAXF:
+                return got is None  # unreachable, or not representable: inf
+            return got is not None and close(got, want)
+
+        if fn == "floyd_warshall":
+            if out[0] != "Dist":
+                return out[0], f"{fn} near 1e308: {out[0]} on a graph without negative weights"
+            for i in range(n):
+                for j in range(n):
+                    if not okd(out[1][i][j], orc.dist(i, j)):
+                        return out[0], f"{fn} near 1e308: dist[{i}][{j}] = {out[1][i][j]!r}, exact {float(orc.dist(i, j)) if orc.dist(i, j) is not None and orc.dist(i, j) <= MAXF else orc.dist(i, j)!r}"
+            return out[0], None
+        if t is None:
+            if out[0] != "Dists":
+                return out[0], f"{fn} near 1e308: {out}"
+            for v in range(n):
+                if not okd(out[1][v], orc.dist(s, v)):
+                    return out[0], f"{fn} near 1e308: dist[{v}] = {out[1][v]!r}, exact {orc.dist(s, v)!r}"
+            return out[0], None
+        d = orc.dist(s, t)
+        if d is None or d > MAXF:
+            return out[0], None if out[0] in ("Infeasible",) else f"{fn} near 1e308: target {t} has no representable distance but result is {out}"
+        if out[0] != "Path" or not close(out[2], d):
+            return out[0], f"{fn} near 1e308: result {out}, exact distance {float(d)!r}"
+        ok = out[1] and out[1][0] == s and out[1][-1] == t and all((a, b) in orc.ws for a, b in zip(out[1], out[1][1:]))
+        return out[0], None if ok else f"{fn} near 1e308: {out[1]} is not a path {s}->{t}"
+    if sub == "cancel":
+        base["exact"] = float(max([abs(w) for _, _, w in case["edges"]] + [1]))
+        out = call_edges(base)
+        return out[0], None
+    raise ValueError(sub)
+
+
+OBSERVATION_SUBS = ("infnan", "overflow", "cancel")  # outside the property (coordinator's POLICY_X a, b, c): run, counted, never judged
+
+
+def is_observation(case):
+    if case["kind"] == "xfloat":
+        return case["sub"] in OBSERVATION_SUBS
+    return case.get("hinf") or any(isinstance(case.get(k), float) and case.get(k) in (INF, -INF) for k in ("max_iter", "max_cost"))
+
+
+def judge_x(case):
+    from harness.props import C11 as A
+
+    obs = case["sub"] in OBSERVATION_SUBS
+    res = guarded(call_x, case, timeout=0.3 if obs else A._limit())  # a hang (parent cycle by float absorption) is cut quickly
+    if res[0] != "ok":
+        if res[0] == "hang" and not obs:
+            A._seen_hang()
+        return res, f"{case['fn']} ({case['sub']}): implementation {res}"
+    return res[1]
+
+
+def gen_x_case(rng):
+    from harness.props import C11 as A
+
+    n, edges, _ = A.gen_wgraph(rng)
+    sub = rng.choice(["intfloat", "negzero", "infnan", "overflow", "cancel", "cancel"])
+    fn = rng.choice(["bellman_ford", "floyd_warshall", "dijkstra_edges"])
+    edges = [list(e) for e in edges]
+    case = {"kind": "xfloat", "sub": sub, "fn": fn, "n": n, "start": rng.randrange(n), "target": rng.choice([None, rng.randrange(n)]),
+            "directed": rng.random() < 0.75, "family": "X"}
+    if sub == "intfloat":
+        edges = [[u, v, rng.choice([w, float(w)])] for u, v, w in edges]
+    elif sub == "negzero":
+        edges = [[u, v, (0 if rng.random() < 0.4 else w)] for u, v, w in edges]
+        case["zero"] = rng.choice([-0.0, 0.0])
+    elif sub == "infnan":
+        for _ in range(rng.randint(1, 3)):
+            edges.insert(rng.randrange(len(edges) + 1), [rng.randrange(n), rng.randrange(n), rng.choice([INF, float("nan"), INF])])
+    elif sub == "overflow":
+        k = rng.choice([2e307, 3e307, 6e307, 1e308])
+        edges = [[u, v, (abs(w) * k if rng.random() < 0.8 else float(abs(w)))] for u, v, w in edges]
+        edges = [[u, v, w] for u, v, w in edges if w < 1.7e308]
+    else:  # cancel: exact integers beyond 2^53 next to their negatives and small numbers
+        fn = case["fn"] = rng.choice(["bellman_ford", "floyd_warshall"])
+        B = rng.choice([2 ** 60, 2 ** 53 + 1, 10 ** 18, 2 ** 62 + 5])
+        edges = [[u, v, (w + B if r < 0.3 else w - B if r < 0.6 else w)] for (u, v, w), r in ((e, rng.random()) for e in edges)]
+    if fn == "dijkstra_edges" and sub != "cancel":
+        edges = [[u, v, (abs(w) if w == w else w)] for u, v, w in edges]
+    case["edges"] = edges
+    return case
+
+
+def x_option_cases(rng, k):
+    """integral floats vs ints / inf in the numeric OPTIONS of the call-back solvers and the grid solver"""
+    out = []
+    for _ in range(k):
+        w = gen_wsearch_case(rng, "X")
+        for fn in ("dijkstra", "astar"):
+            for mi in (None, 3, 3.0, 1e9, INF):
+                for mc in (None, 4, 4.0, INF):
+                    c = copy.deepcopy(w)
+                    c.update(fn=fn, max_iter=mi, max_cost=mc, family="X")
+                    if rng.random() < 0.5:
+                        c["adj"] = [[[j, float(x)] for j, x in es] for es in c["adj"]]
+                    out.append(c)
+            c = copy.deepcopy(w)
+            c.update(fn="astar", weight=rng.choice([1, 1.0, 2, 2.0]), hfloat=True, family="X")
+            out.append(c)
+            c = copy.deepcopy(w)
+            c.update(fn="astar", hinf=True, hc=rng.choice([[1, 1], [1, 2]]), family="X")  # heuristic = inf on dead ends
+            out.append(c)
+        s = gen_search_case(rng, "X")
+        for fn in ("bfs", "dfs"):
+            for mi in (2, 2.0, 1e9, INF, 0.5, -0.0):
+                c = copy.deepcopy(s)
+                c.update(fn=fn, max_iter=mi, family="X")
+                out.append(c)
+        g = gen_grid_case(rng, "X")
+        for mi in (None, 5.0, INF):
+            c = copy.deepcopy(g)
+            c.update(max_iter=mi, weight=rng.choice([None, 1.0, 1, 2.0]), family="X")
+            if c["costs"]:
+                c["costs"] = {kk: float(v) for kk, v in c["costs"].items()}
+            if rng.random() < 0.4:
+                c["grid"] = [[float(x) for x in row] for row in c["grid"]]
+            out.append(c)
+    return out
